@@ -1,37 +1,88 @@
-(* C01 driver.  obs = per instance:  I <number of rejected fed events> B... L e f
+(* C01 driver.  obs = per instance:  I|S <number of rejected fed events> B... L e f
+   Instances "I" were fed the whole event set (each in its own parents-first order), instance "S" an
+   ancestor-closed strict subset (the first m events of the case, shuffled parents-first).
    spec_ok (the property on the implementation alone): every instance accepted every event (required
-   when the input is valid, i.e. the reference accepts every event; shrunk inputs may not be) and all
-   instances emitted the same blocks / last decided frame.
-   model_obs: the extracted reference (a function of the event SET, hence the same for every
-   order): all events accepted, blocks = blocks_spec. *)
+   when the input is valid, i.e. the reference accepts every event; shrunk inputs may not be), all "I"
+   instances emitted the same blocks / epoch / last decided frame, and the blocks of the "S" instance are
+   an initial segment of theirs.
+   model_obs: the extracted reference (a function of the event SET): all events accepted, blocks =
+   blocks_spec of the full set resp. of the subset.
+   model_spec_ok: the extracted line-by-line model of abft (model/AbftRun.v), run in creation order, in
+   latest-ready-first order and on the subset, gives the reference's observation (impl_refines_spec and
+   C01_full, tested on the model). *)
 open Model
 open Conv
 open Drv
 open Refparse
+open Refrunabft
 
-let rec split_inst (toks : string list) : string list list =
-  (* split on "I" *)
+let split_inst (toks : string list) : string list list =
   let rec go cur acc = function
     | [] -> List.rev (if cur = [] then acc else List.rev cur :: acc)
-    | "I" :: r -> go ["I"] (if cur = [] then acc else List.rev cur :: acc) r
+    | ("I" | "S") as t :: r -> go [t] (if cur = [] then acc else List.rev cur :: acc) r
     | t :: r -> go (t :: cur) acc r in
   go [] [] toks
 
+(* the block groups of an instance's tokens: "B" e f a s k c1..ck *)
+let block_groups (toks : string list) : string list list =
+  let rec go cur acc = function
+    | [] -> List.rev (if cur = [] then acc else List.rev cur :: acc)
+    | "B" :: r -> go ["B"] (if cur = [] then acc else List.rev cur :: acc) r
+    | "L" :: _ -> List.rev (if cur = [] then acc else List.rev cur :: acc)
+    | t :: r -> if cur = [] then go cur acc r else go (t :: cur) acc r in
+  go [] [] toks
+
+let rec is_prefix a b = match a, b with
+  | [], _ -> true
+  | x :: a', y :: b' -> x = y && is_prefix a' b'
+  | _ -> false
+
+(* the scenario restricted to its first m events *)
+let truncate (s : scn) (m : int) : scn =
+  let left = ref m in
+  let eps = List.filter_map (fun d ->
+      if !left <= 0 then None else begin
+        let k = min !left (List.length d) in
+        left := !left - k;
+        Some (List.filteri (fun i _ -> i < k) d) end) s.eps in
+  let eps = if eps = [] then [[]] else eps in
+  { s with eps; nev = min m s.nev }
+
 let eval inp obs =
   let s = parse inp in
-  let k = (match s.extra with k :: _ -> int_of_string k | [] -> 0) in
+  let k, kinds = (match s.extra with k :: r -> int_of_string k, r | [] -> 0, []) in
   let res = run_reference s in
   let all_ok = all_codes_zero res in
-  let one = ["I"; "0"] @ block_tokens res in
-  let m = List.concat (List.init k (fun _ -> one)) in
+  let full = block_tokens res in
+  let sub_m = List.fold_left (fun acc t -> match String.split_on_char ':' t with
+      | ["8"; m; _] -> Some (int_of_string m) | _ -> acc) None kinds in
+  let ssub = (match sub_m with Some m -> Some (truncate s m) | None -> None) in
+  let sub = (match ssub with Some s' -> block_tokens (run_reference s') | None -> []) in
+  let m = List.concat (List.filteri (fun i _ -> i < k) (List.map (fun t ->
+      match String.split_on_char ':' t with
+      | ["8"; _; _] -> ["S"; "0"] @ sub
+      | _ -> ["I"; "0"] @ full) kinds)) in
   let insts = split_inst obs in
-  let tails = List.map (fun i -> match i with _ :: _ :: t -> t | _ -> ["?"]) insts in
+  let fulls = List.filter (fun i -> match i with "I" :: _ -> true | _ -> false) insts in
+  let subs = List.filter (fun i -> match i with "S" :: _ -> true | _ -> false) insts in
+  let tails = List.map (fun i -> match i with _ :: _ :: t -> t | _ -> ["?"]) fulls in
   let accepted = List.for_all (fun i -> match i with _ :: c :: _ -> c = "0" | _ -> false) insts in
   let same = (match tails with [] -> true | t :: r -> List.for_all (fun x -> x = t) r) in
+  let prefix_ok = (match tails with
+      | [] -> true
+      | t :: _ -> List.for_all (fun i -> is_prefix (block_groups i) (block_groups t)) subs) in
+  (* the abft model: creation order, latest-ready-first, subset *)
+  let a1 = c01_tokens s "I" (creation_order s) in
+  let a2 = c01_tokens s "I" (latest_ready_first s) in
+  let a3 = (match ssub with Some s' -> c01_tokens s' "S" (creation_order s') | None -> ["S"; "0"] @ sub) in
+  let model_ok = (not all_ok) || (a1 = ["I"; "0"] @ full && a2 = ["I"; "0"] @ full && a3 = ["S"; "0"] @ sub) in
   { default_verdict with model_obs = m;
-    spec_ok = Some ((accepted || not all_ok) && same && List.length insts = k);
-    model_spec_ok = true;
+    spec_ok = Some ((accepted || not all_ok) && same && prefix_ok && List.length insts = k);
+    model_spec_ok = model_ok;
     nontrivial = any_block res;
-    note = (if not same then "instances disagree" else if not accepted then "an instance rejected an event" else "") }
+    note = (if not same then "instances disagree" else if not prefix_ok then "subset instance is not a prefix"
+            else if not accepted then "an instance rejected an event"
+            else if not model_ok then "abft model differs from the reference: " ^ String.concat " " a1 ^ " / " ^ String.concat " " a2 ^ " / " ^ String.concat " " a3
+            else "") }
 
 let () = run eval
